@@ -58,6 +58,7 @@ def lexer_triage(repo):
     from . import enumproof
     for fname, _line in enumproof.infeasible_raises(repo):
         keys.add(f"T3|{fname}|ValueError from raise ValueError*")
+        keys.add(f"T3|{repo.public_owner('lexer', None, fname)[1]}|ValueError from raise ValueError*")    # as the engine names it
     if not tables.tb3(repo):
         keys.add(tables.TB3_TRIAGE_KEY)
     # the final raise of aggregation_cls() is infeasible iff TB1 holds for every grammar class: prune the path
